@@ -21,11 +21,11 @@ type TuMsg struct {
 	N   int `json:"n"`
 }
 type TuCase struct {
-	Cfg    WiCfg   `json:"cfg"`
-	Msgs   []TuMsg `json:"msgs"`
-	Closer int     `json:"closer"` // 0 = client closes at the end, 1 = backend closes
-	Idle   int     `json:"idle"`   // milliseconds of silence in the middle of the session
-	Browser bool   `json:"browser,omitempty"` // the handshake carries what a browser sends along (Accept-Encoding, Origin, extensions, ...)
+	Cfg     WiCfg   `json:"cfg"`
+	Msgs    []TuMsg `json:"msgs"`
+	Closer  int     `json:"closer"`            // 0 = client closes at the end, 1 = backend closes
+	Idle    int     `json:"idle"`              // milliseconds of silence in the middle of the session
+	Browser bool    `json:"browser,omitempty"` // the handshake carries what a browser sends along (Accept-Encoding, Origin, extensions, ...)
 }
 
 func tuBytes(seq, n int) []byte {
@@ -37,10 +37,10 @@ func tuBytes(seq, n int) []byte {
 }
 
 type tuBackend struct {
-	c       TuCase
-	recvOK  []bool
-	closed  chan bool // the backend side saw EOF after a client close
-	done    chan struct{}
+	c      TuCase
+	recvOK []bool
+	closed chan bool // the backend side saw EOF after a client close
+	done   chan struct{}
 }
 
 func (tb *tuBackend) ServeHTTP(w http.ResponseWriter, r *http.Request) {
@@ -244,9 +244,13 @@ func TestTunnel(t *testing.T) {
 				cfg.Chain = append(cfg.Chain, WiPlug{Name: "gzip"})
 			}
 			if j%4 == 3 && !hasPlug(cfg, "size_limit") {
-				cfg.Chain = append([]WiPlug{{Name: "size_limit", MaxReq: 200000, MaxResp: 400000}}, cfg.Chain...)
+				// limits far below what the session carries: a tunnel is not a response body
+				cfg.Chain = append([]WiPlug{{Name: "size_limit", MaxReq: 64, MaxResp: 60000}}, cfg.Chain...)
 			}
 			var cases []TuCase
+			if hasPlug(cfg, "size_limit") {
+				cases = append(cases, TuCase{Cfg: cfg, Msgs: []TuMsg{{Dir: 1, N: 100000}, {Dir: 0, N: 100000}, {Dir: 1, N: 100000}, {Dir: 0, N: 7}, {Dir: 1, N: 5}}, Closer: j % 2})
+			}
 			for k := 0; k < per; k++ {
 				cases = append(cases, genTuCase(g.Fork(uint64(100+k)), cfg))
 			}
